@@ -12,6 +12,7 @@
 #include <map>
 #include <set>
 #include <thread>
+#include <array>
 #include <sys/wait.h>
 #include <unistd.h>
 
@@ -77,7 +78,7 @@ using WObj = trompeloeil::deathwatched<MWb>;
 using E = std::unique_ptr<trompeloeil::expectation>;
 
 enum { S_A0 = 0, S_Q1 = 1, S_Q2 = 2, S_D = 3, S_Q3 = 4, S_FIRST_CREATED = 5 };
-enum { NOPS = 20, MAXT = 3, MAXOPS = 2 };
+enum { NOPS = 20, MAXT = 3, MAXOPS = 3 };
 static const char* OPN[NOPS] = {"call m.f(1)", "call m.f(0)", "call m.g(1)", "create REQUIRE_CALL(m,f(1))", "create+release ALLOW_CALL(m,f(_))",
   "create REQUIRE_CALL(m,g(_)).IN_SEQUENCE(s).TIMES(2)", "create REQUIRE_CALL(m,g(_)).TIMES(2).IN_SEQUENCE(s)", "create REQUIRE_CALL(m,g(_)).IN_SEQUENCE(s,s2)",
   "release Q1", "release A0", "Q2.is_satisfied();Q2.is_saturated()", "s.is_completed()", "delete w", "release D", "destroy m2",
@@ -377,6 +378,10 @@ static std::vector<Program> programs_of(const std::string& shape, const std::vec
     for (size_t a = 0; a < ops.size(); ++a) for (size_t b = a; b < ops.size(); ++b) { Program p{}; p.nt = 2; p.nops[0] = p.nops[1] = 1; p.op[0][0] = ops[a]; p.op[1][0] = ops[b]; add(p); }
   } else if (shape == "3x1") {
     for (size_t a = 0; a < ops.size(); ++a) for (size_t b = a; b < ops.size(); ++b) for (size_t c = b; c < ops.size(); ++c) { Program p{}; p.nt = 3; p.nops[0] = p.nops[1] = p.nops[2] = 1; p.op[0][0] = ops[a]; p.op[1][0] = ops[b]; p.op[2][0] = ops[c]; add(p); }
+  } else if (shape == "2x3") {
+    std::vector<std::array<int, 3>> tp;
+    for (int a : ops) for (int b : ops) for (int c : ops) tp.push_back({{a, b, c}});
+    for (size_t x = 0; x < tp.size(); ++x) for (size_t y = x; y < tp.size(); ++y) { Program p{}; p.nt = 2; p.nops[0] = p.nops[1] = 3; for (int k = 0; k < 3; ++k) { p.op[0][k] = tp[x][(size_t)k]; p.op[1][k] = tp[y][(size_t)k]; } add(p); }
   } else if (shape == "2x2") {
     std::vector<std::pair<int, int>> tp;
     for (int a : ops) for (int b : ops) tp.push_back({a, b});
